@@ -33,6 +33,24 @@ def rules(pos=None):
             ("restate", "", RestateSubtractionRule()), ("varmul", "", VariableMultiplyRule()), ("move", "", BalancedMoveRule())]
 
 
+def rules_narrowed():
+    """user-defined subclasses of the shipped rules that narrow get_type() (the documented extension point: 'leave some nodes alone'):
+    whatever such a rule reports as applicable it must be able to apply"""
+    from mathy_core.rules import (BalancedMoveRule, ConstantsSimplifyRule, DistributiveFactorOutRule, MultiplicativeInverseRule,
+                                  RestateSubtractionRule, VariableMultiplyRule)
+    out = []
+    for name, base in (("fold", ConstantsSimplifyRule), ("factor", DistributiveFactorOutRule), ("inverse", MultiplicativeInverseRule),
+                       ("restate", RestateSubtractionRule), ("varmul", VariableMultiplyRule), ("move", BalancedMoveRule)):
+        class Narrowed(base):
+            def get_type(self, node):
+                if common.pick(str(node), 3) == 0:
+                    return None
+                return super().get_type(node)
+        Narrowed.__name__ = "Narrowed" + base.__name__
+        out.append((name, "narrowed", Narrowed()))
+    return out
+
+
 def rules_reversed():
     """the same eleven instances in the same order, but CONSTRUCTED last-to-first"""
     from mathy_core.rules import (AssociativeSwapRule, BalancedMoveRule, CommutativeSwapRule, ConstantsSimplifyRule,
@@ -424,6 +442,13 @@ def _events_for_text(job):
                         out.append({"typ": "reprobe", "rule": "inplace-ancestor:%s@%d" % (name, k), "opt": "", "text": text, "k": 0, "used": used, "fresh": fresh})
                 except BaseException:  # noqa
                     pass
+    if want_probe and n <= 30:
+        for name, opt, rule in rules_narrowed():
+            out.append(probe_event(t0, name, opt, rule, text))
+            for k in range(n):
+                ev, _ = step_event(t0, name, opt, rule, k, text)
+                if ev is not None:
+                    out.append(ev)
     if want_probe:
         try:
             out.extend(reprobe_event(t0.clone(), persistent, text, "start"))
